@@ -474,8 +474,7 @@ class Expectation(Pytree):
         return self.prog.jvp_estimate(key, dual_tree, _identity)
 
     def estimate(self, key, args):
-        tangents = jtu.tree_map(lambda _: 0.0, args)
-        return self.jvp_estimate(key, tangents).primal
+        return self.jvp_estimate(key, Dual.tree_pure(args)).primal
 
     ##################################
     # JAX's native `grad` interface. #
